@@ -85,6 +85,8 @@ pub type Diagnostics = HashMap<Locator, Vec<Diagnostic>>;
 pub struct Workspace {
     docs: HashMap<Locator, String>,
     errors: Option<Vec<(Span, String)>>,
+    /// The documents whose last published diagnostics were not empty.
+    reported: Vec<Locator>,
 }
 
 impl Workspace {
@@ -194,6 +196,10 @@ impl Workspace {
             .keys()
             .map(|loc| (loc.clone(), Default::default()))
             .collect::<Diagnostics>();
+        // Make sure stale diagnostics are also cleared on documents that are no longer opened.
+        for loc in std::mem::take(&mut self.reported) {
+            diags.entry(loc).or_default();
+        }
         let errs = self.errors.take().unwrap_or_default();
         for (span, msg) in errs {
             let diag = self.diagnostic(&span, msg)?;
@@ -207,6 +213,11 @@ impl Workspace {
                 }
             }
         }
+        self.reported = diags
+            .iter()
+            .filter(|(_, d)| !d.is_empty())
+            .map(|(loc, _)| loc.clone())
+            .collect();
         Ok(diags)
     }
 
